@@ -30,6 +30,9 @@
      P:unset-value     an unset cookie still has a value
      P:cookie-echo     the request API reads an echoed cookie as another value
      P:cookie-refusal  set_cookie raised ValueError for an ASCII value, or accepted a non-ASCII one
+     P:cookie-name-refusal  set_cookie / unset_cookie accepted a name that is not an RFC 7230 token (separator, blank,
+                       control, non-ASCII, empty), or refused a token; an accepted name is then held to the line /
+                       echo clauses under exactly that name (P:cookie-lines, P:cookie-echo)
    D-clauses (model detail): D:content-length, D:cookie-order, D:unset-window,
      D:cookie-coding   the cookie value on the line is not CookieEncode(value) of RespHeadersOps
      D:unset-inherit   an unset cookie carries an attribute the call did not give and no earlier write left
@@ -88,8 +91,10 @@ NewRaw == IF Ev.op = "append" /\ IsSC(Ev.n) THEN Append(raw, Ev.v) ELSE raw
 (* ---- cookies ---- *)
 EffCA(ca) == IF "Z" \in Known /\ ca.ma.kind \in {"int", "float"} /\ ca.ma.num = 0 /\ ca.ma.frac = 0
              THEN [ca EXCEPT !.ma = [kind |-> "none", num |-> 0, frac |-> 0]] ELSE ca
-(* set_cookie refuses a value that is not ASCII (documented ValueError): nothing is written *)
-Refused == Ev.op = "set_cookie" /\ CookieRefused(Ev.vcps)
+(* set_cookie refuses a value that is not ASCII (documented ValueError) and set_cookie / unset_cookie refuse a name
+   that is not a token (CookieNameLegal over the name's code points, documented KeyError): nothing is written *)
+NameBad == Ev.op \in {"set_cookie", "unset_cookie"} /\ ~CookieNameLegal(Ev.ckcps)
+Refused == (Ev.op = "set_cookie" /\ CookieRefused(Ev.vcps)) \/ NameBad
 (* jar: what the last call for the name asked for (set: with "M" merged into the earlier write);
    inh: what an unset_cookie may inherit from the writes so far; inh[k].prev: the name was written before *)
 NewJar ==
@@ -145,7 +150,7 @@ LawVerdict ==
 ExpectErr ==
     CASE Ev.op \in {"get", "set", "delete"} -> IsSC(Ev.n)
       [] Ev.op = "set_headers" -> AnySC(Ev.items)
-      [] Ev.op = "set_cookie" -> Refused
+      [] Ev.op \in {"set_cookie", "unset_cookie"} -> Refused
       [] OTHER -> FALSE
 ExpectRes ==
     CASE Ev.op = "get" -> IF IsSC(Ev.n) THEN <<>> ELSE Look(model, Ev.n.b)
@@ -153,7 +158,10 @@ ExpectRes ==
       [] OTHER -> <<>>
 CallVerdict ==
     IF Ev.exc # "" THEN "P:exception|" \o Ev.op
-    ELSE IF Ev.err # ExpectErr THEN (IF Ev.op = "set_cookie" THEN "P:cookie-refusal|" ELSE "P:setcookie-guard|") \o Ev.op
+    ELSE IF Ev.err # ExpectErr THEN (IF Ev.op \in {"set_cookie", "unset_cookie"}
+                                     THEN (IF NameBad \/ Ev.op = "unset_cookie" \/ ~CookieRefused(Ev.vcps)
+                                           THEN "P:cookie-name-refusal|" ELSE "P:cookie-refusal|")
+                                     ELSE "P:setcookie-guard|") \o Ev.op
     ELSE IF Ev.res # ExpectRes THEN "P:readback|" \o Ev.op
     \* (for append_link the new map value must be the old one, ", ", and the appended link-value: a Link header that
     \*  was rebuilt from anything else fails here, before the appended part is decoded)
@@ -217,7 +225,9 @@ EmitVerdict ==
         badval  == {k \in ks : one(k) /\ jar[k].unset /\ LineOf(rest, k).value \notin {"", "\"\""}}
         badexp  == {k \in ks : one(k) /\ jar[k].unset /\
                       LET L == LineOf(rest, k) IN ~Expired(L.hasmaxage, L.maxage, L.hasexp, L.exp, Ev.now)}
-        badecho == {k \in ks : ~jar[k].unset /\ (EchoOf(k) # <<EchoWant(jar[k].value)>> \/ Echo1Of(k) # <<EchoWant(jar[k].value)>>)}
+        \* (an unset cookie echoed back is read under its name too, once)
+        badecho == {k \in ks : IF jar[k].unset THEN (Len(EchoOf(k)) # 1 \/ Len(Echo1Of(k)) # 1)
+                               ELSE (EchoOf(k) # <<EchoWant(jar[k].value)>> \/ Echo1Of(k) # <<EchoWant(jar[k].value)>>)}
     IN
     IF Ev.exc # "" THEN "P:exception|emit"
     ELSE IF ~NoDup(Ev.plain) \/ Del(got, "content-length") # Del(WantPlain, "content-length") THEN "P:emit-once|plain"
